@@ -767,8 +767,8 @@ def _run_sweep(rec, res, sweep, solo, solo_steps, fu_steps, w0, budgets, cold, t
         res.steps += sim.gstep
         for f in sim.fired:
             res.reach("preemption_sites", ("L|" if rec["gran"] == "LINE" else "I|") + f[3])
-        if rec["gran"] == "LINE":
-            res.reach("library_lines_used_as_preemption_point", f[3])
+            if rec["gran"] == "LINE":
+                res.reach("library_lines_used_as_preemption_point", f[3])
             res.reach("distinct_interleavings", f"{f[3]}|{f[1]}>{f[2]}")
         res.count("preemptions_fired", len(sim.fired))
         res.count("preemptions_fired_SWEEP", len(sim.fired))
